@@ -182,6 +182,23 @@ type WTwice struct {
 	B SInner
 }
 
+// Avro names are case-sensitive: fields whose names differ only in case are different fields
+type WCase struct {
+	Id   int64  `json:"Id"`
+	ID   string `json:"ID"`
+	URL  int64
+	Url  *int64
+	Name string `json:"name"`
+	NAME string `json:"NAME,omitempty"`
+}
+
+// no Avro-visible field at all: every record encodes to zero bytes
+type WNoFields struct {
+	hidden int
+	Skip   int64  `json:"-"`
+	BQ     string `bq:"-"`
+}
+
 func staticOf[T any](name string) rtCase {
 	return rtCase{name: name, typ: reflect.TypeFor[T](), mk: encodeGeneric[T], path: "encoder"}
 }
@@ -231,6 +248,8 @@ func witnessCases() []witness {
 		{staticOf[WPtrNull]("ptr-null-invalid"), vals(WPtrNull{&null.Int{}, 1})},
 		{staticOf[WOmitString]("omit-string-empty"), vals(WOmitString{"", 1}, WOmitString{"x", 2}, WOmitString{"", 3})},
 		{staticOf[WMapMap]("map-map"), vals(WMapMap{map[string]map[string]int64{"a": {"x": 1}, "b": {}}})},
+		{staticOf[WCase]("case-variant-names"), vals(WCase{1, "two", 3, pi7, "five", "six"}, WCase{0, "", 9, nil, "", ""}, WCase{-1, "x", 0, pi7, "y", ""})},
+		{staticOf[WNoFields]("no-visible-fields"), vals(WNoFields{1, 2, "a"}, WNoFields{}, WNoFields{3, 4, "b"})},
 		{staticOf[WTwice]("struct-twice"), vals(WTwice{SInner{1, "a"}, SInner{2, "b"}})},
 	}
 }
